@@ -118,7 +118,11 @@ func genDMCase(t *rapid.T) DMCase {
 
 // checkDMRoundTrip returns the reader's result (nil when rejected).
 func checkDMRoundTrip(t TB, c DMCase) *ref.DMResult {
+	noteCase("C02", "datamatrix-roundtrip", c)
 	const P, K = "C02", "datamatrix-roundtrip"
+	if n := len(c.Content); n >= 5 && n <= 300 {
+		dmEncode(DMCase{Content: BStr(crcTwin(c.Content, n))})
+	}
 	bc, err, pv := dmEncode(c)
 	if pv != nil {
 		failf(t, P, K, c, "%v", pv)
@@ -130,6 +134,7 @@ func checkDMRoundTrip(t TB, c DMCase) *ref.DMResult {
 		}
 		return nil
 	}
+	disturb("datamatrix")
 	m, merr := matrix2D(bc)
 	if merr != nil {
 		failf(t, P, K, c, "%v", merr)
@@ -174,6 +179,7 @@ func c02Account(st *Stats, c DMCase, res *ref.DMResult) {
 }
 
 func TestC02Rapid(t *testing.T) {
+	foreignWarmup("datamatrix")
 	st := NewStats("C02", "rapid")
 	runRapid(t, st, func(rt *rapid.T) {
 		c := genDMCase(rt)
@@ -188,6 +194,7 @@ func TestC02Rapid(t *testing.T) {
 // TestC02Sweep: every size at its capacity and at the smallest codeword count that needs it,
 // with three content shapes (ASCII, digit pairs, upper-shift bytes); plus capacity+1.
 func TestC02Sweep(t *testing.T) {
+	foreignWarmup("datamatrix")
 	st := NewStats("C02", "sweep")
 	defer st.Flush()
 	ct := &collectTB{}
